@@ -355,6 +355,8 @@ fn expr_p2<'t>(
     input: &'t [LexToken],
     st: &mut SymbolTable,
 ) -> ParseResult<'t, Located<Expression>> {
+    #[cfg(feature = "verif-hooks")]
+    rssl_text::verif::tick(10);
     fn expr_p2_unaryop<'t>(
         input: &'t [LexToken],
         st: &mut SymbolTable,
